@@ -18,9 +18,11 @@ input it belongs to.  For every ``torch.autograd.Function`` of the package:
 from __future__ import annotations
 
 import ast
+import copy
 from typing import Dict, List, Optional, Set, Tuple
 
 from ..index import AnalysisError, ClassInfo, FunctionInfo, ProgramIndex, dotted, norm, short, walk_body
+from ..deps import ReachingDefs
 from ..report import Finding, Report
 
 PROP = "C07"
@@ -192,6 +194,47 @@ def local_lists(fn: FunctionInfo) -> Dict[str, List]:
     return env
 
 
+def _needs_input_grad_binding(stmt: ast.AST, name: str) -> Optional[ast.AST]:
+    """The subscript of ctx.needs_input_grad that ``name`` is bound to by ``stmt`` (plain or destructuring assignment)."""
+    if not (isinstance(stmt, ast.Assign) and len(stmt.targets) == 1):
+        return None
+    t, v = stmt.targets[0], stmt.value
+    if isinstance(t, ast.Name) and t.id == name:
+        return v if isinstance(v, ast.Subscript) and norm(v.value).endswith("needs_input_grad") else None
+    if isinstance(t, (ast.Tuple, ast.List)) and isinstance(v, (ast.Attribute, ast.Name)) and norm(v).endswith("needs_input_grad"):
+        star = next((k for k, el in enumerate(t.elts) if isinstance(el, ast.Starred)), None)
+        for k, el in enumerate(t.elts):
+            if isinstance(el, ast.Starred) and isinstance(el.value, ast.Name) and el.value.id == name and k == len(t.elts) - 1:
+                return ast.Subscript(value=v, slice=ast.Slice(lower=ast.Constant(value=k), upper=None, step=None), ctx=ast.Load())
+            if isinstance(el, ast.Name) and el.id == name and (star is None or k < star):
+                return ast.Subscript(value=v, slice=ast.Constant(value=k), ctx=ast.Load())
+    return None
+
+
+def _substitute_needs_input_grad(rd, stmt: ast.AST, test: ast.AST) -> ast.AST:
+    nid = rd.node_of(stmt)
+    if nid is None:
+        return test
+    env: Dict[str, ast.AST] = {}
+    for x in ast.walk(test):
+        if not isinstance(x, ast.Name) or x.id in env:
+            continue
+        defs = rd.IN.get(nid, {}).get(x.id)
+        if not defs:
+            continue
+        bound = [_needs_input_grad_binding(rd.cfg.nodes[d].ast, x.id) for d, _ in defs]
+        if all(b is not None for b in bound) and len({ast.dump(b) for b in bound}) == 1:
+            env[x.id] = bound[0]
+    if not env:
+        return test
+
+    class Sub(ast.NodeTransformer):
+        def visit_Name(self, node):
+            return copy.deepcopy(env[node.id]) if node.id in env and isinstance(node.ctx, ast.Load) else node
+
+    return ast.fix_missing_locations(Sub().visit(copy.deepcopy(test)))
+
+
 def run(idx: ProgramIndex, rep: Report, tier: str, selftest: bool = True):
     rep.extra["explanation"] = (
         "Table agreement over the positional protocol of every torch.autograd.Function of the package (9 classes): the "
@@ -268,10 +311,17 @@ def run(idx: ProgramIndex, rep: Report, tier: str, selftest: bool = True):
                         f"{' + inputs unpacked from *' + f.star if f.star else ''}): every representation gradient is "
                         "shifted onto the wrong tensor", f.bw.loc(r)))
         # ---------------------------------------------------------------- P2
+        rd_bw = None
         for n in walk_body(f.bw):
             if not isinstance(n, ast.If):
                 continue
-            for sub in ast.walk(n.test):
+            test = n.test
+            if any(isinstance(x, ast.Name) for x in ast.walk(test)):
+                # names bound to (a destructuring of) ctx.needs_input_grad stand for the subscript they were bound to
+                if rd_bw is None:
+                    rd_bw = ReachingDefs(f.bw)
+                test = _substitute_needs_input_grad(rd_bw, n.test, test)
+            for sub in ast.walk(test):
                 if isinstance(sub, ast.Subscript) and norm(sub.value).endswith("needs_input_grad"):
                     sl = sub.slice
                     if isinstance(sl, ast.Constant) and isinstance(sl.value, int):
